@@ -443,7 +443,7 @@ LEX_PAYLOADS = {
 }
 STYLES = [{}, {'quote': "'"}, {'reverse_attrs': True}, {'charrefs': True},
           {'explicit_defaults': True}, {'comments': True}, {'indent': False, 'self_close': False},
-          {'quote': "'", 'reverse_attrs': True, 'charrefs': True, 'comments': True}]
+          {'quote': "'", 'reverse_attrs': True, 'charrefs': True, 'comments': True}, {'tagcomments': True}]
 
 
 def space(tier, seed):
